@@ -88,11 +88,11 @@ theorem kleaf_cached_iff (L : Laws F.nodes (FRoot F)) (rep : Rep m T A C)
       exact ⟨x, by show (C x).isSome = true; rw [hC]; rfl, hcp x t hC⟩
 
 /-- `KLeaf` for the cached set of the model, in terms of `posOf` -/
-theorem kleaf_iff (cr : CR H) (hn : F.numLeaves < 2 ^ 64) (hy : Hyg F) (rep : Rep m T A C) {t : Pos} :
+theorem kleaf_iff (nz : NZ H) (hn : F.numLeaves < 2 ^ 64) (hy : Hyg F) (rep : Rep m T A C) {t : Pos} :
     KLeaf F.nodes (fun x => (C x).isSome = true) t ↔ ∃ x, m.hasCached x = true ∧ F.posOf x = some t := by
   constructor
   · rintro ⟨x, hk, hm⟩
-    exact ⟨x, by rw [rep.hasCached x]; exact hk, (posOf_iff F hn hy cr).2 hm⟩
+    exact ⟨x, by rw [rep.hasCached x]; exact hk, (posOf_iff F hn hy nz).2 hm⟩
   · rintro ⟨x, hk, hp⟩
     exact ⟨x, by show (C x).isSome = true; rw [← rep.hasCached x]; exact hk, posOf_mem hp⟩
 
@@ -104,12 +104,12 @@ end abstract
 theorem SInv.n_lt64 {m : MapPollard H} {F : Forest H} (s : SInv m F) : F.numLeaves < 2 ^ 64 := by
   have := s.n_lt; omega
 
-theorem SInv.laws (cr : CR H) {m : MapPollard H} {F : Forest H} (s : SInv m F) : Laws F.nodes (FRoot F) :=
-  laws_forest cr F s.n_lt64 s.hyg
+theorem SInv.laws (nz : NZ H) {m : MapPollard H} {F : Forest H} (s : SInv m F) : Laws F.nodes (FRoot F) :=
+  laws_forest nz F s.n_lt64 s.hyg
 
 /-- the remember flag of every stored node with a non-zero hash (root or not): set iff the
 node is the position of a cached leaf -/
-theorem SInv.flags_all (cr : CR H) {m : MapPollard H} {F : Forest H} (s : SInv m F) :
+theorem SInv.flags_all (nz : NZ H) {m : MapPollard H} {F : Forest H} (s : SInv m F) :
     ∀ q l, Valid m.totalRows.toNat q → m.getNode (encP m.totalRows.toNat q) = some l →
       l.hash ≠ Hasher.zero →
       (l.remember = true ↔ ∃ x, m.getCached x = some (encP m.totalRows.toNat q)) := by
@@ -117,13 +117,13 @@ theorem SInv.flags_all (cr : CR H) {m : MapPollard H} {F : Forest H} (s : SInv m
   intro q l hv hg hnz
   have hA : A q = some l := by rw [← rep.node q hv]; exact hg
   rw [ainv.flags q l hA hnz]
-  exact kleaf_cached_iff (s.laws cr) rep ainv.cached_pos hv
+  exact kleaf_cached_iff (s.laws nz) rep ainv.cached_pos hv
 
-theorem SInv.rootFlags (cr : CR H) {m : MapPollard H} {F : Forest H} (s : SInv m F) : RootFlags m F :=
-  fun q l hv _ hg hnz => s.flags_all cr q l hv hg hnz
+theorem SInv.rootFlags (nz : NZ H) {m : MapPollard H} {F : Forest H} (s : SInv m F) : RootFlags m F :=
+  fun q l hv _ hg hnz => s.flags_all nz q l hv hg hnz
 
-theorem SInv.inv (cr : CR H) {m : MapPollard H} {F : Forest H} (s : SInv m F) : Inv m F := by
-  have L := s.laws cr
+theorem SInv.inv (nz : NZ H) {m : MapPollard H} {F : Forest H} (s : SInv m F) : Inv m F := by
+  have L := s.laws nz
   have hn := s.n_lt64
   obtain ⟨A, C, rep, ainv⟩ := s.abs
   -- a stored node is a node of `F`
@@ -133,7 +133,7 @@ theorem SInv.inv (cr : CR H) {m : MapPollard H} {F : Forest H} (s : SInv m F) : 
     have hA : A q = some l := by rw [← rep.node q hv]; exact hg
     exact ⟨hA, ainv.true_hash q l hA⟩
   have hkl : ∀ t, KLeaf F.nodes (fun x => (C x).isSome = true) t ↔
-      ∃ x, m.hasCached x = true ∧ F.posOf x = some t := fun t => kleaf_iff cr hn s.hyg rep
+      ∃ x, m.hasCached x = true ∧ F.posOf x = some t := fun t => kleaf_iff nz hn s.hyg rep
   refine { n_lt := s.n_lt, n_eq := s.n_eq, rows_le := s.rows_le, total_le := s.total_le, true_hash := ?_,
            cached_pos := ?_, only_needed := ?_, has_needed := ?_, flags := ?_ }
   · -- true_hash
@@ -149,7 +149,7 @@ theorem SInv.inv (cr : CR H) {m : MapPollard H} {F : Forest H} (s : SInv m F) : 
     | some t =>
       rw [hC] at hc
       simp only [Option.map_some, Option.some.injEq] at hc
-      exact ⟨t, (posOf_iff F hn s.hyg cr).2 (ainv.cached_pos x t hC), hc.symm⟩
+      exact ⟨t, (posOf_iff F hn s.hyg nz).2 (ainv.cached_pos x t hC), hc.symm⟩
   · -- only_needed
     intro q l hv hg
     obtain ⟨hA, b, hb⟩ := stored_node q l hv hg
@@ -196,7 +196,7 @@ theorem SInv.inv (cr : CR H) {m : MapPollard H} {F : Forest H} (s : SInv m F) : 
   · -- flags
     intro _ q l hv hr hg
     obtain ⟨_, b, hb⟩ := stored_node q l hv hg
-    exact s.flags_all cr q l hv hg (L.nonzero_of_nonroot hb (not_froot_iff.2 hr))
+    exact s.flags_all nz q l hv hg (L.nonzero_of_nonroot hb (not_froot_iff.2 hr))
 
 
 /-! ### `Inv + RootFlags + Hyg → SInv` -/
@@ -212,10 +212,10 @@ theorem rep_of_inv {m : MapPollard H} {F : Forest H} (inv : Inv m F) :
     obtain ⟨t, hp, he⟩ := inv.cached_pos x p hc
     exact ⟨t, posOf_valid inv.rows_le hp, he⟩
 
-theorem SInv.of_inv (cr : CR H) {m : MapPollard H} {F : Forest H} (inv : Inv m F) (hfull : m.full = false)
+theorem SInv.of_inv (nz : NZ H) {m : MapPollard H} {F : Forest H} (inv : Inv m F) (hfull : m.full = false)
     (hy : Hyg F) (hrf : RootFlags m F) : SInv m F := by
   have hn : F.numLeaves < 2 ^ 64 := by have := inv.n_lt; omega
-  have L := laws_forest cr F hn hy
+  have L := laws_forest nz F hn hy
   have rep := rep_of_inv inv
   generalize hA : absA m m.totalRows.toNat = A at rep
   generalize hC : absC m m.totalRows.toNat = C at rep
@@ -234,7 +234,7 @@ theorem SInv.of_inv (cr : CR H) {m : MapPollard H} {F : Forest H} (inv : Inv m F
     have : t = t' := encP_inj' hT (rep.cdom x t h) (posOf_valid inv.rows_le hp) he
     rw [this]; exact posOf_mem hp
   have hkl : ∀ t, KLeaf F.nodes (fun x => (C x).isSome = true) t ↔
-      ∃ x, m.hasCached x = true ∧ F.posOf x = some t := fun t => kleaf_iff cr hn hy rep
+      ∃ x, m.hasCached x = true ∧ F.posOf x = some t := fun t => kleaf_iff nz hn hy rep
   have conv : ∀ {o : Option (Leaf H)}, o.isSome = true → o ≠ none := by
     intro o ho e; rw [e] at ho; cases ho
   refine { n_lt := inv.n_lt, n_eq := inv.n_eq, rows_le := inv.rows_le, total_le := hT, full := hfull,
@@ -351,10 +351,10 @@ theorem m5_total : m5.totalRows.toNat ≤ 63 := m5_inv.total_le
 theorem m5_rootFlags : RootFlags m5 F5 := rootFlagsCheck_sound m5_rootFlagsCheck m5_total
 
 /-- `SInv.of_inv`: its hypotheses hold of `m5` / `F5` -/
-theorem m5_sinv : SInv m5 F5 := SInv.of_inv crT m5_inv m5_partial F5_hyg m5_rootFlags
+theorem m5_sinv : SInv m5 F5 := SInv.of_inv crT.toNZ m5_inv m5_partial F5_hyg m5_rootFlags
 
 /-- `SInv.inv`, `SInv.rootFlags`: their hypothesis holds of `m5` / `F5` -/
-example : Inv m5 F5 ∧ RootFlags m5 F5 := ⟨m5_sinv.inv crT, m5_sinv.rootFlags crT⟩
+example : Inv m5 F5 ∧ RootFlags m5 F5 := ⟨m5_sinv.inv crT.toNZ, m5_sinv.rootFlags crT.toNZ⟩
 
 /-- the instance is not trivial: `F5` has a root that is a cached leaf (row 0, offset 4: the
 flag is set) and a root that is not (row 2, offset 0: the flag is clear), both stored with
@@ -382,7 +382,7 @@ example : Inv (m5.putNode (encP 63 (0, 4)) ⟨.leaf 4, false⟩) F5 ∧
       (by simp only [Hasher.zero]; intro h; cases h)
     have h2 := h.2 ⟨.leaf 4, by decide +kernel⟩
     cases h2
-  exact ⟨Props.C09.invCheck_sound (by decide +kernel), hnot, fun s => hnot (s.rootFlags crT)⟩
+  exact ⟨Props.C09.invCheck_sound (by decide +kernel), hnot, fun s => hnot (s.rootFlags crT.toNZ)⟩
 
 end Example
 
